@@ -13,7 +13,7 @@ rsync -a --exclude _build --exclude .git --exclude doc --exclude thirdparty/benc
 if ! (cd "$scratch/repo" && patch -p1 -s < "$patch"); then echo "PATCH FAILED"; exit 3; fi
 VERIF_REPO="$scratch/repo" VERIF_BUILD="$scratch/build" "$here/check" "$pid" "$tier" > "$scratch/log" 2>&1
 rc=$?
-grep -E "VIOLATION|KNOWN-FINDING|BROKEN" "$scratch/log" | head -5
+grep -E "VIOLATION|KNOWN-FINDING|BROKEN" "$scratch/log" | head -${VERIF_MUT_LINES:-5}
 echo "check exit=$rc"
 [ "$rc" = 1 ] && exit 0
 [ "$rc" = 0 ] && { echo "MUTANT SURVIVED"; exit 1; }
